@@ -566,6 +566,9 @@ def python_jobs(rng, n_random, mutator_jobs=True):
         jobs.append({"ctor": {"protocol": p, "seed": 50 + p}, "calls": [["generate"], ["set_opcode_range", 5, 9], ["generate"], ["generate"]]})
         jobs.append({"ctor": {"protocol": p}, "calls": [["generate_from_bytes", inputs[3]], ["set_opcode_range", 100, 140], ["generate_from_bytes", inputs[3]]]})
         jobs.append({"ctor": {"protocol": p, "seed": 60}, "calls": [["generate_from_bytes", inputs[4]], ["reset"], ["generate"], ["generate_from_bytes", inputs[1]]]})
+    for p in range(6):
+        jobs.append({"ctor": {"protocol": p, "seed": 70 + p}, "calls": [["set_opcode_range", 5, 10], ["generate"], ["reset"], ["generate"], ["generate_from_bytes", inputs[3]]]})
+        jobs.append({"ctor": {"protocol": p, "seed": 80 + p}, "calls": [["set_opcode_range", 100, 120], ["reset"], ["generate"]]})
     jobs.append({"ctor": {}, "calls": [["generate_from_bytes", inputs[2]]]})                      # default protocol 3
     jobs.append({"ctor": {"seed": 3}, "calls": [["generate"]]})
     jobs.append({"ctor": {"protocol": 2, "seed": 2 ** 64 - 1}, "calls": [["set_opcode_range", 0, 0], ["generate"]]})
@@ -588,6 +591,9 @@ def python_jobs(rng, n_random, mutator_jobs=True):
         for p in range(6):
             mjobs.append({"mutator": True, "ctor": {"protocol": p}, "calls": [["mutate", inputs[3], 100000], ["mutate", inputs[3], 100000], ["mutate", inputs[4], 64], ["mutate", inputs[0], 10]]})
         mjobs.append({"mutator": True, "ctor": {"protocol": 4, "seed": 5}, "calls": [["mutate", inputs[4], 5], ["reset"], ["mutate", inputs[4], 1 << 20]]})
+        for p in range(6):
+            # a call whose size limit cannot be met, then ordinary calls on the same mutator
+            mjobs.append({"mutator": True, "ctor": {"protocol": p}, "calls": [["mutate", inputs[3], 10000], ["mutate", inputs[4], 16], ["mutate", inputs[3], 10000], ["mutate", inputs[4], 8], ["mutate", inputs[4], 1 << 20]]})
     return jobs, mjobs
 
 
@@ -696,6 +702,8 @@ def check_c08_python(tier, seed, paths):
                 jobs.append({"ctor": {"protocol": p}, "calls": [["generate_from_bytes", x], ["generate_from_bytes", x], ["generate_from_bytes", inputs[2]], ["generate_from_bytes", x]]})
                 mjobs.append({"mutator": True, "ctor": {"protocol": p}, "calls": [["mutate", x, 1 << 20], ["mutate", x, 1 << 20], ["mutate", inputs[3], 1 << 20], ["mutate", x, 1 << 20]]})
             jobs.append({"ctor": {"protocol": p, "seed": 9}, "calls": [["generate"], ["generate"], ["generate_from_bytes", inputs[2]], ["generate"]]})
+            # earlier calls with size limits that cannot be met must not influence later ones
+            mjobs.append({"mutator": True, "ctor": {"protocol": p}, "calls": [["mutate", inputs[2], 10000], ["mutate", inputs[3], 16], ["mutate", inputs[2], 10000], ["mutate", inputs[3], 4], ["mutate", inputs[3], 1 << 20]]})
         if thorough:
             for _ in range(200):
                 calls = [rng.choice([["generate"], ["generate_from_bytes", rng.choice(inputs)], ["reset"]]) for _ in range(rng.randint(2, 8))]
